@@ -1583,6 +1583,9 @@ class MeshRegion:
                 zShift_contour = zShift_interpolator(
                     contour.get_distance(psi=self.equilibriumRegion.psi)
                 )
+                # Count from the start of the contour, where the value handed over from
+                # the previous region (or zero) applies
+                zShift_contour = zShift_contour - zShift_contour[contour.startInd]
 
                 if i % 2 == 0:
                     # xlow and corners
@@ -1644,31 +1647,32 @@ class MeshRegion:
         region.poloidal_distance.xlow = 0.0
         region.poloidal_distance.corners = 0.0
 
-        # Initialise so that distance counts from the lower wall (for SOL/PFR) or wall
-        # (for core)
-        for i in range(self.nx):
-            c = region.contours[2 * i + 1]
-            # Cell-centre points
-            region.poloidal_distance.centre[i, :] -= c.get_distance(
-                psi=self.meshParent.equilibrium.psi
-            )[c.startInd]
-            # ylow points
-            region.poloidal_distance.ylow[i, :] -= c.get_distance(
-                psi=self.meshParent.equilibrium.psi
-            )[c.startInd]
-        for i in range(self.nx + 1):
-            c = region.contours[2 * i]
-            # Cell-centre points
-            region.poloidal_distance.xlow[i, :] -= c.get_distance(
-                psi=self.meshParent.equilibrium.psi
-            )[c.startInd]
-            # ylow points
-            region.poloidal_distance.corners[i, :] -= c.get_distance(
-                psi=self.meshParent.equilibrium.psi
-            )[c.startInd]
-
         # Get distances from contours
         while True:
+            # Count distance from the start of each contour: the lower wall for the
+            # first region of SOL/PFR, and the join with the previous region otherwise
+            # (the distance along a contour is not necessarily zero at its startInd).
+            for i in range(region.nx):
+                c = region.contours[2 * i + 1]
+                # Cell-centre points
+                region.poloidal_distance.centre[i, :] -= c.get_distance(
+                    psi=self.meshParent.equilibrium.psi
+                )[c.startInd]
+                # ylow points
+                region.poloidal_distance.ylow[i, :] -= c.get_distance(
+                    psi=self.meshParent.equilibrium.psi
+                )[c.startInd]
+            for i in range(region.nx + 1):
+                c = region.contours[2 * i]
+                # Cell-centre points
+                region.poloidal_distance.xlow[i, :] -= c.get_distance(
+                    psi=self.meshParent.equilibrium.psi
+                )[c.startInd]
+                # ylow points
+                region.poloidal_distance.corners[i, :] -= c.get_distance(
+                    psi=self.meshParent.equilibrium.psi
+                )[c.startInd]
+
             for i in range(self.nx):
                 c = region.contours[2 * i + 1]
                 # Cell-centre points
